@@ -137,7 +137,8 @@ Record pay_line := mkPL {
 Definition convert (rates : list xrate) (from to : Z) (subunits_to : nat) (a : amount) : option amount :=
   if from =? to then Some a
   else match find_rate from to rates with
-       | Some r => Some (rescale (mul a r) subunits_to)
+       (* ExchangeRate.Convert, as repaired: raised to the destination currency's decimals before Multiply *)
+       | Some r => Some (rescale (mul (match_precision a (mkA 0 subunits_to)) r) subunits_to)
        | None => None
        end.
 
